@@ -1223,8 +1223,11 @@ class Structure(UniqueMixin, metaclass=StructMeta):
 
     def __getstate__(self):
         fields_by_name = _get_all_fields_by_name(self.__class__)
+        # a Constant attribute is listed among the fields but is not a Field: it has no __serialize__
         state = {
-            name: field.__serialize__(getattr(self, name, None))
+            name: getattr(field, "__serialize__", lambda value: value)(
+                getattr(self, name, None)
+            )
             for (name, field) in fields_by_name.items()
             if name in self.__dict__
         }
